@@ -29,6 +29,7 @@ READY = {
     "OHVerif.Props.C09", "OHVerif.Props.C11", "OHVerif.Props.C15",
     "OHVerif.Props.C12", "OHVerif.Props.C13", "OHVerif.Props.C14", "OHVerif.Props.C19",
     "OHVerif.Props.C04", "OHVerif.Props.C10", "OHVerif.Props.C17", "OHVerif.Props.C18",
+    "OHVerif.Props.C16", "OHVerif.Props.C20",
 }
 
 def _mods(*names):
@@ -41,8 +42,8 @@ PROPS = {
                 missing=[]),
     "C02": dict(modules=_mods("OHVerif.Props.C02"), groups=[("oh", 1500), ("law", 1500), ("lax.cat", 1500)], deps=[("ic", 300), ("ff", 300), ("hg", 300)]),
     "C03": dict(modules=_mods("OHVerif.Props.C03"), groups=[("law", 4000)], deps=[("oh", 800)]),
-    "C04": dict(modules=_mods("OHVerif.Props.C04"), groups=[("law", 2500), ("oh", 1500), ("lax.cat", 1000)], deps=[("ff", 300)]),
-    "C05": dict(modules=_mods("OHVerif.Props.C05"), groups=[("oh", 1500), ("hg", 1500), ("lax.cat", 800), ("functor", 300), ("dynfunctor", 400), ("optic", 300)],
+    "C04": dict(modules=_mods("OHVerif.Props.C04"), groups=[("law", 2500), ("oh", 1500), ("lax.cat", 1000), ("lawlax", 1500)], deps=[]),
+    "C05": dict(modules=_mods("OHVerif.Props.C05"), groups=[("oh", 1500), ("hg", 1500), ("lax.cat", 800), ("functor", 300), ("dynfunctor", 400), ("optic", 300), ("ic", 1500), ("ff", 600)],
                 deps=[("ff", 400), ("ic", 400)]),
     "C06": dict(modules=_mods("OHVerif.Props.C06"), groups=[("ff", 3000)], deps=[("prim", 500)]),
     "C07": dict(modules=_mods("OHVerif.Props.C07", "OHVerif.Lemmas.VecBackend"), groups=[("prim", 3000)], deps=[], release=True),
@@ -69,7 +70,7 @@ ONLY = {
     "C01": r"oh\.compose$",
     "C02": r"(oh\.tensor|hg\.coproduct|ic\.tensor|ff\.tensor|lax\.tensor|law\.tensor_\w+:eq)$",
     "C03": r"law\.(assoc|id_left|id_right|interchange|twist_natural|twist_twist|hexagon|hexagon_mirror)$",
-    "C04": r"(oh\.dagger|oh\.spider|oh\.half_spider|lax\.dagger|lax\.spider|law\.dagger_\w+(:eq)?|law\.spider_fusion|law\.identity_is_spider:eq|law\.twist_is_spider:eq)$",
+    "C04": r"(oh\.dagger|oh\.spider|oh\.half_spider|lax\.dagger|lax\.spider|law\.dagger_\w+(:eq)?|law\.spider_fusion|law\.lax_spider_fusion|law\.strict_dagger|law\.identity_is_spider:eq|law\.twist_is_spider:eq)$",
     "C05": r"(hg\.new|oh\.new|ff\.new|ic\.new_\w+|ic\.from_semifinite_\w+|ic\.ops_new|oh\.\w+|lax\.(from_strict|to_strict|identity|spider|singleton|tensor|compose|lax_compose|twist|dagger|source|target)|functor\.\w+|lax\.functor\.\w+|lax\.optic\.\w+)$",
     "C06": r"ff\.",
     "C07": r"prim\.",
